@@ -408,9 +408,22 @@ Outcome Interp::exec(const Op &op) {
                     p = q2; out.note = "from-copy";
                 } catch (const std::invalid_argument &) {}     // no such parameter yet: the fresh one is used
             }
+            if (setOut.threw && out.note == "from-copy" && (op.arg(3) / 4) % 2 != 0) {
+                // the caller catches the refusal and goes on with the parameter, which by C09 still holds what it held: hands it back to the object
+                out.note = "set-refused-kept"; out.mutating = true;
+                obj->parameter(s.group, p);
+                return out;
+            }
             if (setOut.threw) { const bool fromCopy = out.note == "from-copy"; out = setOut; out.note = fromCopy ? "set-refused-on-copy" : "set-refused"; out.mutating = false; return out; }
             out.mutating = true;
             obj->parameter(s.group, p);
+        }
+        else if (k == "dimq") {
+            // dimq <n> <nd> <d1..dnd>: the public helper Parameter::isDimensionConsistent(n, dims) asked directly (also with no dimension at all)
+            long long n = op.arg(0) < 0 ? -op.arg(0) : op.arg(0); long long nd = (op.arg(1) < 0 ? -op.arg(1) : op.arg(1)) % 8;
+            std::vector<size_t> d; for (long long j = 0; j < nd; ++j) d.push_back(static_cast<size_t>((op.arg(2 + static_cast<size_t>(j)) < 0 ? -op.arg(2 + static_cast<size_t>(j)) : op.arg(2 + static_cast<size_t>(j))) % 256));
+            ezc3d::ParametersNS::GroupNS::Parameter p("Q");
+            out.note = std::string("dimq=") + (p.isDimensionConsistent(static_cast<size_t>(n), d) ? "1" : "0");
         }
         else if (k == "padp") {
             // padding parameter: int array of n elements with a description of d characters (sweeps the section length)
@@ -459,6 +472,14 @@ Outcome Interp::exec(const Op &op) {
                 p.set(m, {255, 128}); obj->parameter("LIMITS", p);
                 ezc3d::ParametersNS::GroupNS::Parameter after("AFTER"); after.set(std::vector<int>() = {11, 12}); obj->parameter("LIMITS", after);
                 out.note = "record255x128+desc" + std::to_string(v); break; }
+            case 16: {  // v EMPTY strings: the entry count is a dimension (limit 255) although the values take no room in the record
+                ezc3d::ParametersNS::GroupNS::Parameter p("EMPTIES"); p.set(std::vector<std::string>(static_cast<size_t>(v), std::string()));
+                obj->parameter("LIMITS", p);
+                ezc3d::ParametersNS::GroupNS::Parameter after("AFTER2"); after.set(std::vector<int>() = {21, 22}); obj->parameter("LIMITS", after);
+                out.note = "empty-strings=" + std::to_string(v); break; }
+            case 17: {  // a table without values whose shape is {0, v}
+                ezc3d::ParametersNS::GroupNS::Parameter p("NOVALUES"); p.set(std::vector<int>(), {0, static_cast<size_t>(v)});
+                obj->parameter("LIMITS", p); out.note = "shape0x" + std::to_string(v); break; }
             case 11: obj->parameter("LIMITS2", mk("G", "")); { /* group description cannot be set through c3d: covered via Group in a loaded file */ } out.note = "noop"; break;
             default: out.skipped = true; out.mutating = false; break;
             }
@@ -486,6 +507,32 @@ Outcome Interp::exec(const Op &op) {
             }
             else if (how == 3) { ezc3d::DataNS::Points3dNS::Points np; f.add(np); out.note = "points-replaced-empty"; }
             else { ezc3d::DataNS::AnalogsNS::SubFrame sf; ezc3d::DataNS::AnalogsNS::Channel ch; ch.data(1.f); sf.channel(ch); f.analogs_nonConst().subframe(sf); out.note = "subframe-add"; }
+        }
+        else if (k == "selfelem") {
+            // selfelem <slot> <kind> <src> <k>: an element of the caller's own Points / SubFrame / Analogs is handed to the indexed setter of the
+            // SAME container with a position at or beyond its size (copy element src to position n+k)
+            size_t slot = static_cast<size_t>((op.arg(0) < 0 ? -op.arg(0) : op.arg(0)) % 4);
+            long long kind = (op.arg(1) < 0 ? -op.arg(1) : op.arg(1)) % 3;
+            size_t src = static_cast<size_t>(op.arg(2) < 0 ? -op.arg(2) : op.arg(2)), kk = static_cast<size_t>(op.arg(3) < 0 ? -op.arg(3) : op.arg(3)) % 40;
+            ezc3d::DataNS::Frame &f = slots[slot];
+            if (kind == 0) {
+                auto &P = f.points_nonConst(); const size_t n = P.nbPoints();
+                if (n == 0) { out.skipped = true; out.note = "no point"; return out; }
+                const auto &E = static_cast<const ezc3d::DataNS::Points3dNS::Points &>(P).point(src % n);
+                P.point(E, n + kk); out.note = "point " + std::to_string(src % n) + "->" + std::to_string(n + kk);
+            } else if (kind == 1) {
+                auto &A = f.analogs_nonConst();
+                if (A.nbSubframes() == 0 || A.subframe_nonConst(0).nbChannels() == 0) { out.skipped = true; out.note = "no channel"; return out; }
+                auto &S = A.subframe_nonConst(0); const size_t n = S.nbChannels();
+                const auto &E = static_cast<const ezc3d::DataNS::AnalogsNS::SubFrame &>(S).channel(src % n);
+                S.channel(E, n + kk); out.note = "channel " + std::to_string(src % n) + "->" + std::to_string(n + kk);
+            } else {
+                auto &A = f.analogs_nonConst(); const size_t n = A.nbSubframes();
+                if (n == 0) { out.skipped = true; out.note = "no sub-frame"; return out; }
+                const auto &E = static_cast<const ezc3d::DataNS::AnalogsNS::Analogs &>(A).subframe(src % n);
+                A.subframe(E, n + kk); out.note = "subframe " + std::to_string(src % n) + "->" + std::to_string(n + kk);
+            }
+            slotDev[slot] += "|mut:shape";
         }
         else if (k == "fsub" || k == "fsubx") {      // fsubx: same call, never excluded (directed reproductions of known findings)
             size_t slot = static_cast<size_t>((op.arg(0) < 0 ? -op.arg(0) : op.arg(0)) % 4);
